@@ -283,7 +283,13 @@ def _check(area, pid, tier, seed, t0, args):
     mine = {k: v for k, v in axioms.items() if ('.Props.%s.' % pid) in k}
     if build_ok and not mine:
         broken.append(('build', 'no property theorem of %s was reported by #print axioms' % pid))
-    obligations = max(len(mine), getattr(area, 'N_THEOREMS', 0))
+    n_src = 0
+    try:
+        with open(os.path.join(LEAN, 'SmppVerif', 'Props', pid + '.lean'), encoding='utf-8') as f:
+            n_src = len(re.findall(r'^#print axioms ', f.read(), re.M))
+    except OSError:
+        pass
+    obligations = max(len(mine), n_src)
     discharged = len([k for k in mine if k not in dirty]) if build_ok else 0
 
     # 4: correspondence + predicate net
